@@ -77,17 +77,8 @@ def guards(ctx, rep, P):
         cs = [t for _, t in jb.calls() if re.search(r"<impl u16>::checked_sub$", callee_name(t))]
         rep.check(P + ".guard", "try_jpeg: segment length - 2 is checked", len(cs) == 1, loc_of(jb))
     # ---- LimitedReader ----------------------------------------------------------------------------------------
-    lr = [b for b in F.bodies if b.promoted is None and re.search(r"LimitedReader<R> as std::io::Read>::read$", b.path)]
-    if not lr:
-        rep.bad(P + ".guard", "anchor:LimitedReader::read", "", "not found")
-    for b in lr[:1]:
-        mins = [t for _, t in b.calls() if re.search(r"Ord::min$|cmp::min$", callee_name(t))]
-        cl = F.closures_of(b)
-        subs = [s for c in cl for bl in c.blocks for s in bl["s"] if s["rv"]["r"] == "bin" and s["rv"]["op"].startswith("Sub")]
-        subs += [t for c in cl for _, t in c.calls() if re.search(r"SubAssign<.*>>::sub_assign$", callee_name(t))]
-        in_parent = [s for bl in b.blocks for s in bl["s"] if s["rv"]["r"] == "bin" and s["rv"]["op"].startswith("Sub")]
-        rep.check(P + ".guard", "LimitedReader: remaining size shrinks by the bytes actually read (inspect on the read result)", len(mins) == 1 and len(subs) == 1 and not in_parent, loc_of(b), "",
-                  "the block-size limiter no longer accounts the bytes returned by the inner read (short reads would end the block early / over-read)")
+    from rules import iolib
+    iolib.limited_reader_rule(F, rep, P + ".guard")
 
 
 def run(ctx, rep):
